@@ -62,6 +62,9 @@ def gen_case(tape, tier):
     if cfg["entry"] == "map_async" and cfg["executor"]["kind"] == "sequential":
         cfg["executor"] = {"kind": "default-pool", "ex": {"mode": "process", "workers": 2, "start": "fifo",
                                                           "pickle_at": "submit"}}
+    if _uses_threads(cfg["executor"]) and tape.coin(0.5, "line-preemption"):
+        # tasks of a thread pool share the storage objects: every source line of the storage modules is a pre-emption point
+        cfg["line_preempt"] = True
     case = {"workload": w, "config": cfg}
     if tape.coin(0.3, "second-run"):
         # the same Pipeline object is mapped a second time under another configuration: nothing may leak
@@ -86,6 +89,14 @@ def gen_case(tape, tier):
         case["restricted_first"] = bool(tape.coin(0.5, "restricted-first")) and cfg["run_folder"]
         case["restricted_swap"] = bool(case["restricted_first"] and tape.coin(0.4, "swap-memory-backend"))
     return case
+
+
+def _uses_threads(ex):
+    if ex["kind"] in ("single", "default-pool"):
+        return ex["ex"]["mode"] == "thread"
+    if ex["kind"] in ("dict", "dict-default"):
+        return any(e["mode"] == "thread" for e in ex["per"].values())
+    return False
 
 
 def simplify(case):
@@ -214,6 +225,9 @@ def _run_case(case, exec_seed, exec_tape, stack):
         sim = C.new_sim(tape, root, preempt=cfg["preempt"],
                         fs_kwargs={"short_writes": cfg.get("short_writes", 0.0), "buffer_size": cfg.get("buffer_size")})
         folder = os.path.join(root, "run") if cfg["run_folder"] else None
+        if cfg.get("line_preempt"):
+            sim.kernel.line_preempt = ("/pipefunc/map/_storage_array/",)
+            sim.kernel.step_cap = 400000
         res = None
         err = None
         loop = None
@@ -239,7 +253,9 @@ def _run_case(case, exec_seed, exec_tape, stack):
 
                         @staticmethod
                         def mkdtemp(*a, **k):
-                            return tempfile.mkdtemp(dir=root)
+                            d = os.path.join(root, f"tmp-run-{len(os.listdir(root))}")  # (a fixed name: it shows in event labels)
+                            os.mkdir(d)
+                            return d
 
                     shared.setdefault("saved_tempfile", _ri.tempfile)
                     _ri.tempfile = _Tmp()
